@@ -88,6 +88,82 @@ class P_hostile_req(DataClassDictMixin):
     class Config(BaseConfig):
         forbid_extra_keys = True
 '''
+HOOKS_SRC = '''
+@dataclass
+class P_hooks(DataClassDictMixin):
+    x: int
+    y: int = 0
+    @classmethod
+    def __pre_deserialize__(cls, d):
+        if isinstance(d, dict) and "attr" in d:
+            raise AttributeError("user")
+        return d["wrapped"]
+    def __post_init__(self):
+        if self.x < 0:
+            raise RuntimeError("neg")
+    @classmethod
+    def __post_deserialize__(cls, obj):
+        if obj.y == 13:
+            raise AttributeError("unlucky")
+        if obj.y == 14:
+            raise KeyError("k")
+        return obj
+'''
+HOOKS_SCHEMA = {"cls": "P_hooks", "source": HOOKS_SRC, "mixin": True, "forbid": False, "allow_nba": False, "discr": None,
+                "discr_keys": [], "fields": [{"name": "x", "type": "int", "mode": "req", "alias": None},
+                                             {"name": "y", "type": "int", "mode": "def", "alias": None}]}
+HOOKS_INPUTS = [{"wrapped": {"x": 1}}, {"wrapped": {"x": 1, "y": 2}}, {"wrapped": {"x": -1}}, {"wrapped": {"x": 1, "y": 13}},
+                {"wrapped": {"x": 1, "y": 14}}, {"wrapped": [1]}, {"wrapped": None}, {"wrapped": {"y": 1}}, {"wrapped": {"x": "q"}},
+                {"wrapped": {"x": 1, "y": [1]}}, {}, {"x": 1}, [1], "abc", None, 5, {"attr": 1}, {"attr": 1, "wrapped": {"x": 1}},
+                {"wrapped": {"x": -1, "y": 13}}, {"wrapped": {"x": "q", "y": "r"}}, {"wrapped": "s"}, {"wrapped": {}}]
+
+
+def hooks_cases(ctx):
+    """Model with user hooks: what is before / inside / after the try (C05_hooks)."""
+    mod = G.build_module(HOOKS_SCHEMA)
+    cls = mod.P_hooks
+    ref = O.Ref(mod)
+    metas = O.field_meta(HOOKS_SCHEMA, mod)
+    cases, labels = [], []
+    for d0 in HOOKS_INPUTS:
+        for entry, fn in entries(HOOKS_SCHEMA, mod):
+            pre_out, _, pre_exc, d1 = G.outcome(cls.__pre_deserialize__, copy.deepcopy(d0), inst_enc=G.enc)
+            pre_tbl = [(G.enc(d0), pre_out)]
+            post_tbl = []
+            fterms = []
+            vals, all_ok = {}, pre_exc is None and isinstance(d1, dict)
+            for m in metas:
+                tbl = []
+                if pre_exc is None and isinstance(d1, dict):
+                    v = O.lookup(d1, m)
+                    if v is O.MISSING:
+                        if m["has_default"]:
+                            vals[m["name"]] = m["default"]
+                        else:
+                            all_ok = False
+                    else:
+                        tbl.append((G.enc(v), dec_outcome_term(ref, ref.typ(m["type"]), v)))
+                        st, r = ref.decode(ref.typ(m["type"]), v)
+                        all_ok = all_ok and st == "ok"
+                        vals[m["name"]] = r
+                dflt = f"(Some {G.enc(m['default'])})" if m["has_default"] else "None"
+                fterms.append(f"(mk_field {coq_str(m['name'])} {coq_str(m['key'])} None {dflt} false false {table_term(tbl)})")
+            if all_ok:
+                key = "(VObj \"P_hooks\" " + coq_list([f"({coq_str(m['name'])}, {G.enc(vals[m['name']])})" for m in metas]) + ")"
+
+                def user_post(_):
+                    return cls.__post_deserialize__(cls(**vals))      # __post_init__, then the post hook: user code only
+                post_out, _, _, _ = G.outcome(user_post, None, inst_enc=enc_result)
+                post_tbl.append((key, post_out))
+            cterm = (f"(mk_class_hooks \"P_hooks\" {coq_list(fterms)} false [] (Some {table_term(pre_tbl)}) "
+                     f"(Some {table_term(post_tbl)}))")
+            exp, summ, exc, _ = real_outcome(fn, copy.deepcopy(d0))
+            ctx.count(("hooks", entry, summ, repr(d0)[:30]))
+            cases.append(f"({cterm}, {G.enc(d0)}, {exp})")
+            labels.append(f"P_hooks.{entry}({d0!r})")
+    return cases, labels
+
+
 HOSTILE_VALUES = ["base", "genexit", "sysexit", "attr", "key", "lookup", "stopiter", "assert", "recursion",
                   "missingfield", "extrakeys", "nodiscr"]
 
@@ -521,6 +597,9 @@ def run(ctx: vlib.Ctx):
                 ucases.append(union_case(pm, ref, members, v))
                 ulabels.append(f"Union[{', '.join(members)}] <- {v!r}"[:120])
 
+        hc, hl = hooks_cases(ctx)
+        run_corr(ctx, "c05_hooks", hc, "fun c => match c with (k, d, e) => res_eqb (from_dict k d) e end",
+                 "cspec * pv * res pv", hl)
         run_corr(ctx, "c05_fields", class_cases,
                  "fun c => match c with (k, d, e) => res_eqb (from_dict k d) e end", "cspec * pv * res pv", class_labels)
         run_corr(ctx, "c05_union", ucases,
